@@ -190,9 +190,13 @@ def stepC20 (st : St) (toks : List String) : St × String :=
     | _, _ => (st, err "format")
   -- pstep k h [i…] : new object (same functions and settings) holding the integrated coordinates
   | "pstep" :: k :: h :: climb => withObj st k fun o =>
-    match parseRat? h, parseNats? climb with
-    | some h, some climb =>
+    match parseRat? h, parseInts? climb with
+    | some h, some climbI =>
       let n := o.path.coord.length
+      -- the climbing images as Python resolves them: counted from the front (i) or from the end (i - n)
+      match climbImages? n climbI with
+      | none => (st, err "value")
+      | some climb =>
       if climb.any (· ≥ n) then (st, err "value") else
       if n < 2 then (st, err "value") else
       let ic := if climb.isEmpty then o.path.icoordPlain h else o.path.icoord Vec.dot ratSqrt h climb
